@@ -30,12 +30,13 @@ RULE = (
     "receiving another directive's usage is a violation; in 40% of the worlds the built-in String carries an output directive "
     "(`extend scalar String @ts(n:k)`) that must govern the String leaves of an introspection selection. Distinct = SHA-1 of (placement, request); non-trivial = some element carries >= 2 directives and the "
     "request involves >= 3 stages."
+    " Half of the worlds complete lists sequentially; field bes: [E!] resolves to [A, null, B]: the list is nulled and reported, and every item - also after the null - went through its hooks exactly once."
 )
 ASSUMPTIONS = ["relative order of enum-value vs enum-type hooks is not asserted (statement leaves it open); each must run exactly once, each group in declaration order"]
 DNAMES = ["t1", "t2", "t3"]
 ALL_LOC = "SCALAR | ENUM | ENUM_VALUE | OBJECT | INTERFACE | UNION | INPUT_OBJECT | INPUT_FIELD_DEFINITION | ARGUMENT_DEFINITION | FIELD_DEFINITION | FIELD"
 SITES = ["S", "E", "E.A", "E.B", "In", "In.s", "In.e", "In.n", "In.l", "In2", "In2.s", "I", "T", "U", "T.s", "T.s.x", "T.e", "I.s", "I.s.x",
-         "Query.f", "Query.f.a", "Query.f.o", "Query.f.e", "Query.f.l", "Query.t", "Query.i", "Query.u", "Query.es", "Query.ts", "Query.g", "Query.g.a", "Query.nnq", "Query.nne",
+         "Query.f", "Query.f.a", "Query.f.o", "Query.f.e", "Query.f.l", "Query.t", "Query.i", "Query.u", "Query.es", "Query.ts", "Query.g", "Query.g.a", "Query.nnq", "Query.nne", "Query.bes",
          "String"]  # the built-in scalar, decorated through `extend scalar String @...`: governs the String leaves of introspection
 ENUM_VALUES = ("A", "B")
 
@@ -51,6 +52,7 @@ def gen_placement(c):
     pl["I.s"] = []
     pl["String"] = [["ts", "String#%d" % c.int(0, 9)]] if c.maybe(40) else []
     pl["$impl"] = c.choice(["class", "instances"])
+    pl["$seq_lists"] = c.maybe(50)
     return pl
 
 
@@ -77,6 +79,7 @@ type Query {
   i: I%(Query.i)s
   u: U%(Query.u)s
   es: [E]%(Query.es)s
+  bes: [E!]%(Query.bes)s
   ts: [T]%(Query.ts)s
   nnq: S!%(Query.nnq)s
   nne: E!%(Query.nne)s
@@ -191,9 +194,10 @@ class World:
                 return W.answer(key, parent, info)
             return r
 
-        for key in ("Query.f", "Query.g", "Query.t", "Query.i", "Query.u", "Query.es", "Query.ts", "T.s", "T.e", "Query.nnq", "Query.nne"):
+        for key in ("Query.f", "Query.g", "Query.t", "Query.i", "Query.u", "Query.es", "Query.ts", "T.s", "T.e", "Query.nnq", "Query.nne", "Query.bes"):
             Resolver(key, schema_name=name)(rec(key))
-        self.engine = run_async(create_engine(sdl(pl), schema_name=name))
+        # (half of the worlds complete lists item after item instead of concurrently)
+        self.engine = run_async(create_engine(sdl(pl), schema_name=name, coerce_list_concurrently=not pl.get("$seq_lists")))
 
     def answer(self, key, parent, info):
         if key in ("Query.f", "Query.g"):
@@ -204,6 +208,8 @@ class World:
             return [{"_typename": "T", "id": "ts0"}, {"_typename": "T", "id": "ts1"}]
         if key == "Query.es":
             return ["A", "B", "A"]
+        if key == "Query.bes":
+            return ["A", None, "B"]  # a null in the middle of a list of non-null items: the items after it are still governed by their hooks
         if key == "T.s":
             return "s(%s)" % (parent.get("_trail", "") if isinstance(parent, dict) else "?")
         if key == "T.e":
@@ -386,7 +392,7 @@ def gen_request(c):
         name = c.choice(["nnq", "nne"])
         return {"uses": [{"alias": "k0", "name": name, "qdirs": qdirs(), "args": {}, "how": {}, "merged_qdirs": []}]}
     for _ in range(c.int(1, 4)):
-        kind = c.weighted([(5, "f"), (2, "g"), (2, "t"), (1, "i"), (1, "u"), (1, "es"), (1, "ts"), (1, "intro")])
+        kind = c.weighted([(5, "f"), (2, "g"), (2, "t"), (1, "i"), (1, "u"), (1, "es"), (1, "ts"), (1, "intro"), (1, "bes")])
         alias = "k%d" % len(uses)
         u = {"alias": alias, "name": kind, "qdirs": qdirs() if kind != "intro" else [], "args": {}, "how": {}, "merged_qdirs": []}
         if kind == "f":
@@ -526,6 +532,16 @@ def expectation(pl, spec):
         elif name == "intro":
             exp_args[u["alias"]] = None
             exp_data[u["alias"]] = {"queryType": {"name": m.out("Query", "String")}}
+        elif name == "bes":
+            for t in m.tags("Query.bes"):
+                m.hit("field>", t)
+            for t in qtags:
+                m.hit("field>", t)
+            for v in ["A", None, "B"]:
+                for t in m.tags("E") + (m.tags("E." + v) if v else []):
+                    m.hit("out", t)
+            exp_args[u["alias"]] = {}
+            exp_data[u["alias"]] = None
         elif name == "es":
             for t in m.tags("Query.es"):
                 m.hit("field>", t)
@@ -570,6 +586,10 @@ def check(spec, world=None):
     if null_root:
         if resp.get("data") is not None or not resp.get("errors"):
             raise Violation(spec, "null at a non-null root field must null data and report an error" + ctx, tag="nn")
+    elif any(u["name"] == "bes" for u in spec["uses"]):
+        bad = [e for e in resp.get("errors") or () if not (e.get("path") or [None])[0] in [u["alias"] for u in spec["uses"] if u["name"] == "bes"]]
+        if bad or not resp.get("errors") or resp.get("data") is None:
+            raise Violation(spec, "a null item of [E!] must null that list only and report it" + ctx, tag="errors")
     elif "errors" in resp:
         raise Violation(spec, "unexpected errors" + ctx, tag="errors")
     for u in ([] if null_root else spec["uses"]):
